@@ -50,6 +50,24 @@ def main() -> int:
             server_mod.time = lambda: env.get("epoch", 0.0) + 1_750_000_000.0 + loop.time() + wall["off"]
             params = RandomUDSServer.RandomnessParameters(**case["params"])
             behavior = UDSServer.Behavior(**case["switches"])
+            if env.get("sibling"):
+                # another virtual ECU lived in this process before: same seed, other arguments, asked the same questions.
+                # Nothing of it may leak into the ECU under test (class-level caches, module-level state).
+                alt = dict(case["params"])
+                for k_, v_ in (("p_identifier", 1.0), ("p_sub_function", 1.0), ("p_service", 1.0), ("p_correct_payload_format", 0.0)):
+                    alt[k_] = 0.0 if float(alt.get(k_, 0.5)) >= 0.5 and k_ != "p_service" else v_
+                try:
+                    sib = RandomUDSServer(case["ecu_seed"], RandomUDSServer.RandomnessParameters(**alt), behavior)
+                    await sib.setup()
+                    sib_t = UDSServerTransport(sib, TargetURI("tcp://h:2"))
+                    for op_ in case["ops"]:
+                        if "dyn" not in op_:
+                            try:
+                                await sib_t.handle_request(bytes.fromhex(op_["pdu"]))
+                            except Exception:  # noqa: BLE001
+                                break
+                except Exception:  # noqa: BLE001
+                    pass
             client = None
             net = None
             if case.get("via_command"):
